@@ -7,6 +7,8 @@ import ElysModel.Lemmas.GenTie
 import ElysModel.Gen.Arith.getRedemptionRate
 import ElysModel.Gen.Arith.interestRateComputation
 import ElysModel.Gen.Arith.borrowGuards
+import ElysModel.Gen.Arith.bondShares
+import ElysModel.Gen.Arith.unbondAmount
 import ElysModel.Lemmas.Stable
 import ElysModel.Gen.Arith.Table
 import ElysModel.Stable.Model
@@ -97,5 +99,50 @@ no other parameter of the vault. -/
 theorem gen_free_borrowGuards : Gen.Arith.freeOf "borrowGuards" =
     ["#0.GetDepositDenom(#1) != #3.Denom", "#0.GetParams(#1).TotalValue",
      "#0.bk.GetBalance(#1, authtypes.NewModuleAddress(types.ModuleName), #0.GetDepositDenom(#1)).Amount", "#3.Amount"] := by decide
+
+/-- the shares `Bond` mints, as the source has it now (x/stablestake/keeper/msg_server_bond.go, the window from the replacement of a zero
+rate to the computation of the share amount): whenever it returns, it returns the model's `sharesFor` of the deposit at the rate read
+before — round(amount / rate), a zero rate counting as one. (The source also asserts the 2^256 range of the quotient.) -/
+theorem gen_bond_shares (r a m : Int) (h : Gen.Arith.bondShares r a = .ok m) : m = sharesFor a r := by
+  unfold Gen.Arith.bondShares at h
+  unfold sharesFor Dec.ofInt
+  by_cases hr : r = 0
+  · simp only [hr, if_true] at h ⊢
+    obtain ⟨r1, h1, h⟩ := bind_ok h
+    cases h1
+    obtain ⟨t, ht, h⟩ := bind_ok h
+    cases h
+    unfold quoC chk at ht
+    have : (P : Int) ≠ 0 := by decide
+    simp only [this, if_false] at ht
+    split at ht <;> cases ht
+    rfl
+  · simp only [hr, if_false] at h ⊢
+    obtain ⟨r1, h1, h⟩ := bind_ok h
+    cases h1
+    obtain ⟨t, ht, h⟩ := bind_ok h
+    cases h
+    unfold quoC chk at ht
+    simp only [hr, if_false] at ht
+    split at ht <;> cases ht
+    rfl
+
+/-- the amount `Unbond` pays, as the source has it now (msg_server_unbond.go, the statement that computes it): the model's `payoutFor`
+of the shares at the rate read before the burn — round(shares · rate). -/
+theorem gen_unbond_amount (r s p : Int) (h : Gen.Arith.unbondAmount r s = .ok p) : p = payoutFor s r := by
+  unfold Gen.Arith.unbondAmount at h
+  unfold payoutFor Dec.ofInt
+  obtain ⟨t, ht, h⟩ := bind_ok h
+  cases h
+  unfold mulC chk at ht
+  split at ht <;> cases ht
+  rfl
+
+/-- non-vacuity: 1000 deposited at a rate of 1.25 mints 800 shares; 800 shares at 1.25 pay 1000; at rate 0 a deposit mints one for one. -/
+example : Gen.Arith.bondShares 1250000000000000000 1000 = .ok 800 ∧ Gen.Arith.unbondAmount 1250000000000000000 800 = .ok 1000 ∧
+    Gen.Arith.bondShares 0 1000 = .ok 1000 := ⟨rfl, rfl, rfl⟩
+
+/-- what the two windows read besides the rate: the amount of the coin deposited resp. of the share coin handed in. -/
+theorem gen_free_bond_unbond : Gen.Arith.freeOf "bondShares" = ["depositCoin.Amount"] ∧ Gen.Arith.freeOf "unbondAmount" = ["shareCoin.Amount"] := by decide
 
 end Elys.Stable.C07Src
